@@ -117,7 +117,7 @@ def make_cases(rng, n):
             add('prefix-compact-size %s' % (hex_tok(dd) if dd else '0x'), 'prefix-compact-size', eq((codec.compact_size(len(dd)) + dd).hex()),
                 inline='prefix_compact_size(%s)' % (hex_tok(dd) if dd else '0x'), inline_want=codec.compact_size(len(dd)) + dd)
         elif which == 6:
-            p = rb(rng, rng.choice([1, 20, 21, 25, 33, 34, 64, 100, 150, 195, 196, 197, 198, 199, 200, 201, 202, 256, 300, 520]))
+            p = rb(rng, rng.choice([1, 20, 21, 25, 33, 34, 64, 100, 150, 195, 196, 197, 198, 199, 200, 201, 202, 256, 300, 520] * 3 + [9995, 9996, 9997, 9998, 9999, 10000]))
             enc = codec.b58check_encode(p)
             add('base58chk-encode %s' % hex_tok(p), 'base58chk-encode', eq('"%s"' % enc), inline='base58chkenc(%s)' % hex_tok(p), inline_str=enc)
             add('base58chk-decode %s' % enc, 'base58chk-decode', eq(p.hex()), inline='base58chkdec(%s)' % enc, inline_want=p)
